@@ -13,3 +13,10 @@ func Add(p Pair) uint64 {
 func Twice(v uint64) uint64 {
 	return Add(Pair{x: v, y: v})
 }
+
+// a package-level variable (translated as a constant)
+var Levela uint64 = 3
+
+func ReadLevela() uint64 {
+	return Levela + 1
+}
